@@ -359,6 +359,7 @@ pub fn resolve_inputs(spec: &str, seed: u64) -> Vec<Input> {
             "ectl" => out.extend(exec_control_inputs(f[1])),
             "ops" => out.extend(operator_inputs()),
             "manyimp" => out.extend(many_import_inputs()),
+            "exectab" => out.extend(exec_table_inputs(seed, f[1].parse().unwrap())),
             "dupimp" => out.extend(duplicate_import_inputs(seed, f[1].parse().unwrap())),
             "par" => out.extend(parallel_inputs(seed, f[1].parse().unwrap())),
             "proposals" => out.extend(proposal_inputs(seed, f[1].parse().unwrap())),
@@ -1519,6 +1520,55 @@ pub fn duplicate_import_inputs(seed: u64, n: u64) -> Vec<Input> {
     out
 }
 
+/// Executable modules with several funcref tables (C01, C06): 2-3 tables (table 0 possibly imported), small functions
+/// returning distinct constants, active segments on every table (MVP, explicit-table and expression encodings), and one
+/// exported `call_t<k>(i)` per table doing `call_indirect` on it -- which table a segment initialises is observable.
+pub fn exec_table_inputs(seed: u64, n: u64) -> Vec<Input> {
+    use crate::gen::*;
+    use crate::optable::T;
+    use rand::Rng;
+    use wasm_encoder::Instruction as I;
+    let mut out = vec![];
+    for k in 0..n {
+        let mut r = gen::rng(seed.wrapping_mul(7919).wrapping_add(k));
+        let mut d = Desc::default();
+        d.types.push(Sig { params: vec![], results: vec![T::I32] });
+        d.types.push(Sig { params: vec![T::I32], results: vec![T::I32] });
+        let ntab = r.gen_range(2..4usize);
+        for t in 0..ntab {
+            let imported = t == 0 && r.gen_bool(0.3);
+            d.tables.push(TableD { ety: T::FuncRef, min: r.gen_range(4..9), max: None, t64: false, imported });
+            if imported {
+                d.imports.push(Imp { module: "env".into(), field: "tab".into(), kind: ImpKind::Table(0) });
+            }
+        }
+        let nconst = r.gen_range(3..7u32);
+        for c in 0..nconst {
+            d.funcs.push(FuncD { ty: 0, imported: false });
+            d.bodies.push(BodyD { locals: vec![], instrs: vec![I::I32Const(100 + c as i32), I::End] });
+        }
+        for t in 0..ntab as u32 {
+            d.funcs.push(FuncD { ty: 1, imported: false });
+            d.bodies.push(BodyD { locals: vec![], instrs: vec![I::LocalGet(0), I::CallIndirect { type_index: 0, table_index: t }, I::End] });
+            d.exports.push(ExportD { name: format!("call_t{}", t), kind: wasm_encoder::ExportKind::Func, idx: nconst + t });
+        }
+        for _ in 0..r.gen_range(2..6) {
+            let table = r.gen_range(0..ntab) as u32;
+            let min = d.tables[table as usize].min;
+            let nitems = r.gen_range(1..4u64);
+            let off = r.gen_range(0..=min - nitems);
+            let funcs_form = r.gen_bool(0.6);
+            let items = (0..nitems).map(|_| if !funcs_form && r.gen_bool(0.2) { Expr::Null(T::FuncRef) } else { Expr::Func(r.gen_range(0..nconst)) }).collect();
+            d.elems.push(ElemD { mode: ElemMode::Active { table, offset: Expr::I32(off as i32), explicit_table: table != 0 || r.gen_bool(0.3) }, ety: T::FuncRef, funcs_form, items });
+        }
+        if r.gen_bool(0.3) {
+            d.exports.push(ExportD { name: "tab".into(), kind: wasm_encoder::ExportKind::Table, idx: r.gen_range(0..ntab) as u32 });
+        }
+        out.push(Input { id: format!("exectab-{}", k), bytes: d.encode(), source: format!("exectab:{}:{}", seed, k) });
+    }
+    out
+}
+
 // ---- execution (C01, C06) -------------------------------------------------------------------------
 
 pub fn exec_case(inp: &Input, gc_runs: u32) -> Option<Value> {
@@ -1548,6 +1598,14 @@ pub fn exec_case(inp: &Input, gc_runs: u32) -> Option<Value> {
         .collect();
     // every exported local function is called (twice, different arguments), in a random order
     let mut calls = vec![];
+    if inp.source.starts_with("exectab:") {
+        // every slot of every table is called
+        for (name, _) in callable.iter().filter(|c| c.0.starts_with("call_t")) {
+            for a in 0..9 {
+                calls.push(json!({"name": name, "args": [a], "round": 0}));
+            }
+        }
+    }
     if inp.source.starts_with("ectl:") {
         // executable control strings: the argument's low three bits decide every condition
         for a in 0..8 {
